@@ -1,6 +1,8 @@
 import HmfVerif.Model.Quad
 import HmfVerif.Real.Basic
 import Mathlib.Tactic
+import Mathlib.Analysis.SpecialFunctions.Log.Deriv
+import Mathlib.Analysis.SpecialFunctions.Sqrt
 /-! linearity, positivity and telescoping of the quadrature kernels over ℝ -/
 namespace Hmf.Quad
 open Hmf
@@ -112,5 +114,209 @@ theorem trapz_nonneg (dx : ℝ) (hdx : 0 ≤ dx) : ∀ ys : List ℝ, (∀ y ∈
     have ha := h a (by simp); have hb := h b (by simp)
     simp only [trapz, sci_add, trap1_r]
     positivity
+
+/-! ## monotonicity of Simpson's rule in the samples; σ decreases when the squared window does -/
+
+theorem basicSimps_mono (dx : ℝ) (hdx : 0 ≤ dx) : ∀ ys zs : List ℝ, List.Forall₂ (· ≤ ·) ys zs → basicSimps dx ys ≤ basicSimps dx zs := by
+  intro ys
+  induction ys using basicSimps.induct (α := ℝ) with
+  | case1 y0 y1 y2 rest ih =>
+    intro zs h
+    obtain ⟨z0, t0, h0, ht0, rfl⟩ := List.forall₂_cons_left_iff.mp h
+    obtain ⟨z1, t1, h1, ht1, rfl⟩ := List.forall₂_cons_left_iff.mp ht0
+    obtain ⟨z2, t2, h2, ht2, rfl⟩ := List.forall₂_cons_left_iff.mp ht1
+    rw [basicSimps_cons3, basicSimps_cons3]
+    have := ih (z2 :: t2) (List.Forall₂.cons h2 ht2)
+    have hd : 0 ≤ dx / 3 := by positivity
+    have : dx / 3 * (y0 + 4 * y1 + y2) ≤ dx / 3 * (z0 + 4 * z1 + z2) := mul_le_mul_of_nonneg_left (by linarith) hd
+    linarith
+  | case2 ys hne =>
+    intro zs h
+    match ys, hne, h with
+    | [], _, h => cases h; simp [basicSimps]
+    | [y], _, h =>
+      obtain ⟨z0, t0, h0, ht0, rfl⟩ := List.forall₂_cons_left_iff.mp h
+      cases ht0; simp [basicSimps]
+    | [y0, y1], _, h =>
+      obtain ⟨z0, t0, h0, ht0, rfl⟩ := List.forall₂_cons_left_iff.mp h
+      obtain ⟨z1, t1, h1, ht1, rfl⟩ := List.forall₂_cons_left_iff.mp ht0
+      cases ht1; simp [basicSimps]
+    | y0 :: y1 :: y2 :: rest, hne, _ => exact absurd rfl (hne y0 y1 y2 rest)
+
+theorem forall₂_getD {ys zs : List ℝ} (h : List.Forall₂ (· ≤ ·) ys zs) (i : Nat) : ys.getD i 0 ≤ zs.getD i 0 := by
+  induction h generalizing i with
+  | nil => simp
+  | cons hab _ ih =>
+    cases i with
+    | zero => simpa using hab
+    | succ n => simpa using ih n
+
+theorem forall₂_take {ys zs : List ℝ} (h : List.Forall₂ (· ≤ ·) ys zs) (n : Nat) : List.Forall₂ (· ≤ ·) (ys.take n) (zs.take n) :=
+  List.forall₂_take n h
+theorem forall₂_drop {ys zs : List ℝ} (h : List.Forall₂ (· ≤ ·) ys zs) (n : Nat) : List.Forall₂ (· ≤ ·) (ys.drop n) (zs.drop n) :=
+  List.forall₂_drop n h
+
+/-- Simpson's rule (any `even` mode) with a non-negative step is monotone in the samples -/
+theorem simps_mono (mode : Even) (dx : ℝ) (hdx : 0 ≤ dx) (ys zs : List ℝ) (h : List.Forall₂ (· ≤ ·) ys zs) :
+    simps mode dx ys ≤ simps mode dx zs := by
+  have hl : ys.length = zs.length := h.length_eq
+  unfold simps
+  simp only [zero_r, two_r, sci_add, sci_div, hl]
+  split
+  · exact basicSimps_mono dx hdx ys zs h
+  · have h1 := basicSimps_mono dx hdx _ _ (forall₂_take h (zs.length - 1))
+    have h2 := basicSimps_mono dx hdx _ _ (forall₂_drop h 1)
+    have g := forall₂_getD h
+    have t1 : trap1 dx (ys.getD (zs.length - 2) 0) (ys.getD (zs.length - 1) 0) ≤ trap1 dx (zs.getD (zs.length - 2) 0) (zs.getD (zs.length - 1) 0) := by
+      rw [trap1_r, trap1_r]; have := g (zs.length - 2); have := g (zs.length - 1)
+      exact mul_le_mul_of_nonneg_left (by linarith) (by positivity)
+    have t2 : trap1 dx (ys.getD 0 0) (ys.getD 1 0) ≤ trap1 dx (zs.getD 0 0) (zs.getD 1 0) := by
+      rw [trap1_r, trap1_r]; have := g 0; have := g 1
+      exact mul_le_mul_of_nonneg_left (by linarith) (by positivity)
+    cases mode <;> simp only <;> linarith
+
+theorem forall₂_map_le {β : Type} (l : List β) (f g : β → ℝ) (h : ∀ x ∈ l, f x ≤ g x) : List.Forall₂ (· ≤ ·) (l.map f) (l.map g) := by
+  induction l with
+  | nil => simp
+  | cons a t ih =>
+    simp only [List.map_cons]
+    exact List.Forall₂.cons (h a (by simp)) (ih (fun x hx => h x (by simp [hx])))
+
+/-- C04: if the squared window at every tabulated wavenumber does not grow from radius r₁ to r₂, neither does σ
+    (non-negative spectrum, wavenumbers and step) -/
+theorem sigmaDisc_antitone (W : ℝ → ℝ) (ks Ps : List ℝ) (order : Nat) (dlnk r1 r2 : ℝ) (hd : 0 ≤ dlnk)
+    (hk : ∀ k ∈ ks, 0 ≤ k) (hP : ∀ p ∈ Ps, 0 ≤ p) (hW : ∀ k ∈ ks, W (r2 * k) ^ 2 ≤ W (r1 * k) ^ 2) :
+    sigmaDisc W ks Ps order dlnk r2 ≤ sigmaDisc W ks Ps order dlnk r1 := by
+  unfold sigmaDisc
+  simp only [sci_sqrt, sci_mul, sci_div, sci_ofInt, sci_npow, sci_pi, two_r]
+  apply Real.sqrt_le_sqrt
+  apply mul_le_mul_of_nonneg_left _ (by positivity)
+  apply simps_mono _ _ hd
+  apply forall₂_map_le
+  intro kp hkp
+  have h1 := hk kp.1 (List.of_mem_zip hkp).1
+  have h2 := hP kp.2 (List.of_mem_zip hkp).2
+  exact mul_le_mul_of_nonneg_left (hW kp.1 (List.of_mem_zip hkp).1) (by positivity)
+
+
+/-! ## Simpson's rule commutes with differentiation in a parameter; the discrete σ² and its exact ln R-derivative -/
+/-- samples that are differentiable functions of a parameter, with their derivatives at `t` -/
+abbrev DerivAt (t : ℝ) (fs : List (ℝ → ℝ)) (ds : List ℝ) : Prop := List.Forall₂ (fun f d => HasDerivAt f d t) fs ds
+
+theorem basicSimps_hasDerivAt (dx t : ℝ) : ∀ (fs : List (ℝ → ℝ)) (ds : List ℝ), DerivAt t fs ds →
+    HasDerivAt (fun s => basicSimps dx (fs.map (· s))) (basicSimps dx ds) t
+  | [], ds, h => by cases h; simpa [basicSimps] using hasDerivAt_const t (0:ℝ)
+  | [f], ds, h => by
+    obtain ⟨d0, t0, h0, ht0, rfl⟩ := List.forall₂_cons_left_iff.mp h
+    cases ht0; simpa [basicSimps] using hasDerivAt_const t (0:ℝ)
+  | [f0, f1], ds, h => by
+    obtain ⟨d0, t0, h0, ht0, rfl⟩ := List.forall₂_cons_left_iff.mp h
+    obtain ⟨d1, t1, h1, ht1, rfl⟩ := List.forall₂_cons_left_iff.mp ht0
+    cases ht1; simpa [basicSimps] using hasDerivAt_const t (0:ℝ)
+  | f0 :: f1 :: f2 :: rest, ds, h => by
+    obtain ⟨d0, t0, h0, ht0, rfl⟩ := List.forall₂_cons_left_iff.mp h
+    obtain ⟨d1, t1, h1, ht1, rfl⟩ := List.forall₂_cons_left_iff.mp ht0
+    obtain ⟨d2, t2, h2, ht2, rfl⟩ := List.forall₂_cons_left_iff.mp ht1
+    have ih := basicSimps_hasDerivAt dx t (f2 :: rest) (d2 :: t2) (List.Forall₂.cons h2 ht2)
+    simp only [List.map_cons, basicSimps_cons3] at ih ⊢
+    exact (((h0.add (h1.const_mul 4)).add h2).const_mul (dx / 3)).add ih
+
+theorem derivAt_getD {t : ℝ} {fs : List (ℝ → ℝ)} {ds : List ℝ} (h : DerivAt t fs ds) (i : Nat) :
+    HasDerivAt (fun s => (fs.map (· s)).getD i 0) (ds.getD i 0) t := by
+  induction h generalizing i with
+  | nil => simpa using hasDerivAt_const t (0:ℝ)
+  | cons hab _ ih =>
+    cases i with
+    | zero => simpa using hab
+    | succ n => simpa using ih n
+
+/-- Simpson's rule commutes with differentiation with respect to a parameter of the samples -/
+theorem simps_hasDerivAt (mode : Even) (dx t : ℝ) (fs : List (ℝ → ℝ)) (ds : List ℝ) (h : DerivAt t fs ds) :
+    HasDerivAt (fun s => simps mode dx (fs.map (· s))) (simps mode dx ds) t := by
+  have hl : fs.length = ds.length := h.length_eq
+  unfold simps
+  simp only [zero_r, two_r, sci_add, sci_div, List.length_map, hl]
+  split
+  · exact basicSimps_hasDerivAt dx t fs ds h
+  · have h1 := basicSimps_hasDerivAt dx t _ _ (List.forall₂_take (ds.length - 1) h)
+    have h2 := basicSimps_hasDerivAt dx t _ _ (List.forall₂_drop 1 h)
+    have g := fun i => derivAt_getD h i
+    have t1 : HasDerivAt (fun s => trap1 dx ((fs.map (· s)).getD (ds.length - 2) 0) ((fs.map (· s)).getD (ds.length - 1) 0))
+        (trap1 dx (ds.getD (ds.length - 2) 0) (ds.getD (ds.length - 1) 0)) t := by
+      simp only [trap1_r]; exact ((g _).add (g _)).const_mul _
+    have t2 : HasDerivAt (fun s => trap1 dx ((fs.map (· s)).getD 0 0) ((fs.map (· s)).getD 1 0))
+        (trap1 dx (ds.getD 0 0) (ds.getD 1 0)) t := by
+      simp only [trap1_r]; exact ((g _).add (g _)).const_mul _
+    simp only [List.map_take, List.map_drop] at h1 h2 ⊢
+    cases mode
+    · exact ((h1.add t1).add (h2.add t2)).div_const 2
+    · exact h1.add t1
+    · exact h2.add t2
+
+
+theorem forall₂_map_map {β γ δ : Type} (R : γ → δ → Prop) (l : List β) (f : β → γ) (g : β → δ) (h : ∀ x ∈ l, R (f x) (g x)) :
+    List.Forall₂ R (l.map f) (l.map g) := by
+  induction l with
+  | nil => simp
+  | cons a t ih =>
+    simp only [List.map_cons]
+    exact List.Forall₂.cons (h a (by simp)) (ih (fun x hx => h x (by simp [hx])))
+
+/-- one sample of the σ² integrand as a function of t = ln R -/
+theorem window_sq_hasDerivAt (W dW : ℝ → ℝ) (c k t : ℝ) (hk : 0 < k)
+    (hW : HasDerivAt (fun s => W (Real.exp s)) (dW (Real.exp t * k)) (Real.log (Real.exp t * k))) :
+    HasDerivAt (fun s => c * W (Real.exp s * k) ^ 2) (c * (2 * W (Real.exp t * k) * dW (Real.exp t * k))) t := by
+  have hx : 0 < Real.exp t * k := mul_pos (Real.exp_pos t) hk
+  have h1 : HasDerivAt (fun s => W (Real.exp s * k)) (dW (Real.exp t * k)) t := by
+    have hlog : Real.log (Real.exp t * k) = t + Real.log k := by
+      rw [Real.log_mul (Real.exp_pos t).ne' hk.ne', Real.log_exp]
+    have h2 := hW
+    rw [hlog] at h2
+    have h3 : HasDerivAt (fun s : ℝ => s + Real.log k) 1 t := (hasDerivAt_id t).add_const _
+    have h4 := h2.scomp t h3
+    simp only [smul_eq_mul, one_mul] at h4
+    refine h4.congr_of_eventuallyEq (Filter.Eventually.of_forall ?_)
+    intro s
+    simp only [Function.comp]
+    rw [Real.exp_add, Real.exp_log hk]
+  have h5 := (h1.mul h1).const_mul c
+  have hfun : (fun s => c * W (Real.exp s * k) ^ 2) = fun y => c * (W (Real.exp y * k) * W (Real.exp y * k)) := by funext y; ring
+  rw [hfun]
+  exact h5.congr_deriv (by ring)
+
+/-- **C05, discrete level.** The Simpson sum defining σ² is differentiable in ln R whenever the window is, and its derivative is
+    the Simpson sum of P k^(3+2n) · 2 W dW/dln(kR) over the *same* samples — the integrand `Filter.dlnss_dlnr` integrates. -/
+theorem sigma2_hasDerivAt (W dW : ℝ → ℝ) (ks Ps : List ℝ) (order : Nat) (dlnk t : ℝ) (hk : ∀ k ∈ ks, 0 < k)
+    (hW : ∀ k ∈ ks, HasDerivAt (fun s => W (Real.exp s)) (dW (Real.exp t * k)) (Real.log (Real.exp t * k))) :
+    HasDerivAt (fun s => simps .avg dlnk ((ks.zip Ps).map (fun kp => kp.2 * kp.1 ^ (3 + 2 * order) * W (Real.exp s * kp.1) ^ 2)))
+      (simps .avg dlnk ((ks.zip Ps).map (fun kp => kp.2 * kp.1 ^ (3 + 2 * order) * (2 * W (Real.exp t * kp.1) * dW (Real.exp t * kp.1))))) t := by
+  have h := simps_hasDerivAt .avg dlnk t
+    ((ks.zip Ps).map (fun kp => fun s => kp.2 * kp.1 ^ (3 + 2 * order) * W (Real.exp s * kp.1) ^ 2))
+    ((ks.zip Ps).map (fun kp => kp.2 * kp.1 ^ (3 + 2 * order) * (2 * W (Real.exp t * kp.1) * dW (Real.exp t * kp.1))))
+    (forall₂_map_map _ _ _ _ (fun kp hkp => window_sq_hasDerivAt W dW _ kp.1 t (hk kp.1 (List.of_mem_zip hkp).1) (hW kp.1 (List.of_mem_zip hkp).1)))
+  simpa only [List.map_map, Function.comp_def] using h
+
+/-- hence the logarithmic slope: d ln σ² / d ln R = simps(P k³ W dW) / (π² σ²), with σ² = (1/2π²)·simps(P k³ W²) -/
+theorem dlnss_dlnr_exact (W dW : ℝ → ℝ) (ks Ps : List ℝ) (dlnk t : ℝ) (hk : ∀ k ∈ ks, 0 < k)
+    (hW : ∀ k ∈ ks, HasDerivAt (fun s => W (Real.exp s)) (dW (Real.exp t * k)) (Real.log (Real.exp t * k)))
+    (hpos : 0 < simps .avg dlnk ((ks.zip Ps).map (fun kp => kp.2 * kp.1 ^ 3 * W (Real.exp t * kp.1) ^ 2))) :
+    HasDerivAt (fun s => Real.log (1 / 2 / Real.pi ^ 2 * simps .avg dlnk ((ks.zip Ps).map (fun kp => kp.2 * kp.1 ^ 3 * W (Real.exp s * kp.1) ^ 2))))
+      (simps .avg dlnk ((ks.zip Ps).map (fun kp => kp.2 * kp.1 ^ 3 * (W (Real.exp t * kp.1) * dW (Real.exp t * kp.1)))) /
+        (Real.pi ^ 2 * (1 / 2 / Real.pi ^ 2 * simps .avg dlnk ((ks.zip Ps).map (fun kp => kp.2 * kp.1 ^ 3 * W (Real.exp t * kp.1) ^ 2))))) t := by
+  have h := (sigma2_hasDerivAt W dW ks Ps 0 dlnk t hk hW).const_mul (1 / 2 / Real.pi ^ 2)
+  simp only [Nat.mul_zero, Nat.add_zero] at h
+  have hpi : 0 < Real.pi ^ 2 := by positivity
+  have hs : 0 < 1 / 2 / Real.pi ^ 2 * simps .avg dlnk ((ks.zip Ps).map (fun kp => kp.2 * kp.1 ^ 3 * W (Real.exp t * kp.1) ^ 2)) := by positivity
+  have hl := h.log hs.ne'
+  refine hl.congr_deriv ?_
+  have e : (ks.zip Ps).map (fun kp => kp.2 * kp.1 ^ 3 * (2 * W (Real.exp t * kp.1) * dW (Real.exp t * kp.1)))
+      = ((ks.zip Ps).map (fun kp => kp.2 * kp.1 ^ 3 * (W (Real.exp t * kp.1) * dW (Real.exp t * kp.1)))).map (2 * ·) := by
+    rw [List.map_map]; congr 1; funext kp; simp only [Function.comp]; ring
+  rw [e, simps_smul]
+  generalize simps Even.avg dlnk ((ks.zip Ps).map (fun kp => kp.2 * kp.1 ^ 3 * (W (Real.exp t * kp.1) * dW (Real.exp t * kp.1)))) = A
+  generalize simps Even.avg dlnk ((ks.zip Ps).map (fun kp => kp.2 * kp.1 ^ 3 * W (Real.exp t * kp.1) ^ 2)) = B at hpos hs ⊢
+  have hB : B ≠ 0 := hpos.ne'
+  have hp : Real.pi ≠ 0 := Real.pi_ne_zero
+  field_simp
 
 end Hmf.Quad
